@@ -7,7 +7,6 @@ Import ListNotations.
 Section LegacyProofs.
 Context {T : Type}.
 Variable cast : dt -> dt -> T -> T.
-Variable pv : bool.
 Variable F1 : dt -> dt.
 Variable f1 : dt -> T -> T.
 Notation ptree := (@ptree T).
@@ -92,7 +91,7 @@ Proof. intros Hp. rewrite legacy1_closed_form. apply spec_is_numpy. exact Hp. Qe
 Section Binary.
 Variable F2 : dt -> dt.
 Variable f2 : dt -> T -> T -> T.
-Notation legacy2 := (legacy2 cast pv F2 f2).
+Notation legacy2 := (legacy2 cast F2 f2).
 Notation espec := (legacy2_elem_spec cast F2 f2).
 
 (* named versions of the nested list recursions *)
